@@ -7,9 +7,10 @@
    assortativity_wei/assortativity_bin (Model/Assortativity.v), and the "ignores weights" clause for degrees_*,
    assortativity_bin, density_*, jdegree, edge_nei_overlap_* (Model/IgnoreWeights.v), findwalks, reachdist,
    distance_bin, efficiency_bin.  Every pair named in the property text is a theorem; findpaths raises on every call.
-   SELF-CONNECTIONS: the pairs clustering_coef_wu/bu and bd/bu carry the hypothesis [nodiag]; it is necessary —
-   C10_cc_wu_bu_selfloop_refuted / C10_cc_bd_bu_selfloop_refuted (Model/ClusteringInf.v makes the code's
-   inf visible); every other pair is proved for any diagonal.
+   SELF-CONNECTIONS: no theorem carries a hypothesis on the diagonal.  (Before the repair 366dab6 of
+   clustering_coef_wu/_bd/_wd the pairs wu/bu and bd/bu needed [nodiag] and were refuted without it — inf against 0 at
+   node 1 of [[1,1],[1,0]]; Model/ClusteringInf.v, the statement-level model with the visible quotient, now proves that
+   no routine ever returns inf: C10_cc_visible_quotient, C10_cc_any_diagonal.)
    Only statements; every proof is `exact <lemma of Proofs/ClusteringReduce.v / Proofs/Reduce*.v>`.
    [cbrt] is any function returning a cube root of the matrix entries (cbrt_ok); the extracted model's
    cbrt_exact meets this on every 0/1 matrix (C10_cbrt_exact_ok_binary). *)
@@ -26,8 +27,8 @@ Open Scope Q_scope.
 
 (* ---- 0/1 input: weighted = binary ---- *)
 Theorem C10_cc_wu_bin_eq_bu : forall cbrt n A i,
-  cbrt_ok cbrt n A -> binary n A -> symmetric n A -> nodiag n A -> (i < n)%nat -> cc_wu cbrt n A i == cc_bu n A i.
-Proof. exact cc_wu_bin_eq_bu. Qed.
+  cbrt_ok cbrt n A -> binary n A -> symmetric n A -> (i < n)%nat -> cc_wu cbrt n A i == cc_bu n A i.   (* any diagonal *)
+Proof. exact Proofs.ReduceSelfloop.cc_wu_bin_eq_bu_anydiag. Qed.
 Theorem C10_cc_wd_bin_eq_bd : forall cbrt n A i,
   cbrt_ok cbrt n A -> binary n A -> (i < n)%nat -> cc_wd cbrt n A i == cc_bd n A i.
 Proof. exact cc_wd_bin_eq_bd. Qed.
@@ -40,8 +41,8 @@ Proof. exact trans_wd_bin_eq_bd. Qed.
 
 (* ---- symmetric input: directed = undirected ---- *)
 Theorem C10_cc_bd_sym_eq_bu : forall n A i,
-  binary n A -> symmetric n A -> nodiag n A -> (i < n)%nat -> cc_bd n A i == cc_bu n A i.
-Proof. exact cc_bd_sym_eq_bu. Qed.
+  binary n A -> symmetric n A -> (i < n)%nat -> cc_bd n A i == cc_bu n A i.                              (* any diagonal *)
+Proof. exact Proofs.ReduceSelfloop.cc_bd_sym_eq_bu_anydiag. Qed.
 Theorem C10_cc_wd_sym_eq_wu : forall cbrt n W i,
   cbrt_ok cbrt n W -> symmetric n W -> (i < n)%nat -> cc_wd cbrt n W i == cc_wu cbrt n W i.
 Proof. exact cc_wd_sym_eq_wu. Qed.
@@ -166,50 +167,27 @@ Theorem C10_edge_betweenness_wei_bin_eq_bin : forall n G, Model.Between.binary n
 Proof. exact (fun n G H => proj2 (Proofs.BetweenPow.wei_eq_bin_on_binary n G H)). Qed.
 
 (* ---- self-connections (the property text says "a matrix whose entries are all 0 or 1": the diagonal is not excluded) ----
-   Model/ClusteringInf.v: clustering_coef_bd / _wd / _wu with the last statement `C = cyc3 / CYC3` returning
-   option Q, None = the float inf of a nonzero cyc3 over a vanishing K(K-1) [- 2 diag(A^2)]  (Model/Clustering.v
-   writes the quotient with Q's total division, harmless with an empty diagonal only). *)
+   Model/ClusteringInf.v: clustering_coef_bd / _wd / _wu statement by statement, including the denominator masks of the
+   repair 366dab6 (`CYC3[CYC3 == 0] = inf`, `K[K < 2] = inf`) and with the last statement `C = cyc3 / CYC3` returning
+   option Q, None = a non-finite float (Model/Clustering.v writes the quotient with Q's total division instead). *)
 Import Model.ClusteringInf Proofs.ReduceSelfloop.
 
-(* a finite value of the visible routine IS the value of the routine the other theorems speak about; with an
-   empty diagonal no routine returns inf on a 0/1 matrix *)
-Theorem C10_cc_visible_quotient :
-  (forall cbrt n W i q,
-     (cc_bd_o n W i = Some q -> q == cc_bd n W i) /\
-     (cc_wd_o cbrt n W i = Some q -> q == cc_wd cbrt n W i) /\
-     (cc_wu_o cbrt n W i = Some q -> q == cc_wu cbrt n W i)) /\
-  (forall cbrt n A i, cbrt_ok cbrt n A -> binary n A -> nodiag n A -> (i < n)%nat ->
-     cc_bd_o n A i <> None /\ cc_wd_o cbrt n A i <> None /\ (symmetric n A -> cc_wu_o cbrt n A i <> None)).
-Proof. exact (conj cc_o_sound cc_o_nodiag_finite). Qed.
+(* for EVERY matrix — any weights, any diagonal — the three routines return a finite number, and it is the value of
+   the routine of Model/Clustering.v that all other theorems (C09, C10) speak about *)
+Theorem C10_cc_visible_quotient : forall cbrt n W i,
+  (exists q, cc_bd_o n W i = Some q /\ q == cc_bd n W i) /\
+  (exists q, cc_wd_o cbrt n W i = Some q /\ q == cc_wd cbrt n W i) /\
+  (exists q, cc_wu_o cbrt n W i = Some q /\ q == cc_wu cbrt n W i).
+Proof. exact cc_o_total. Qed.
 
-(* ANY diagonal: wd = bd on 0/1 input and wd = wu on symmetric input agree including the infinities; wu / bd
-   against bu on symmetric 0/1 input: every finite value agrees, and an inf appears only at a node with fewer than
-   two neighbours (itself included when it has a self-connection) carrying a closed 3-walk — there bu returns 0 *)
+(* the four per-node pairs on the statement-level routines, ANY diagonal: both sides finite and equal *)
 Theorem C10_cc_any_diagonal :
   (forall cbrt n A i, cbrt_ok cbrt n A -> binary n A -> (i < n)%nat -> oeq (cc_wd_o cbrt n A i) (cc_bd_o n A i)) /\
   (forall cbrt n W i, cbrt_ok cbrt n W -> symmetric n W -> (i < n)%nat -> oeq (cc_wd_o cbrt n W i) (cc_wu_o cbrt n W i)) /\
   (forall cbrt n A i, cbrt_ok cbrt n A -> binary n A -> symmetric n A -> (i < n)%nat ->
-     match cc_wu_o cbrt n A i with
-     | Some q => q == cc_bu n A i
-     | None => cc_bu n A i == 0 /\ kdeg n A i < 2 /\ ~ diag3 n A i == 0 /\ ~ nodiag n A
-     end) /\
-  (forall n A i, binary n A -> symmetric n A -> (i < n)%nat ->
-     match cc_bd_o n A i with
-     | Some q => q == cc_bu n A i
-     | None => cc_bu n A i == 0 /\ kdeg n A i < 2 /\ ~ diag3 n A i == 0 /\ ~ nodiag n A
-     end).
-Proof. exact (conj cc_wd_o_bin_eq_bd (conj cc_wd_o_sym_eq_wu (conj cc_wu_o_bin_bu cc_bd_o_sym_bu))). Qed.
-
-(* the full statements "on every symmetric 0/1 matrix" are FALSE: node 1 of [[1,1],[1,0]] gets inf from
-   clustering_coef_wu and clustering_coef_bd, 0 from clustering_coef_bu (replayed on the implementation at every check:
-   known finding clustering_coef_wu/clustering_coef_bu:selfloop, clustering_coef_bd/clustering_coef_bu:selfloop) *)
-Theorem C10_cc_wu_bu_selfloop_refuted :
-  exists n A i, binary n A /\ symmetric n A /\ (i < n)%nat /\ cbrt_ok cbrt_exact n A /\
-    ~ oeq (cc_wu_o cbrt_exact n A i) (Some (cc_bu n A i)).
-Proof. exact cc_wu_bu_selfloop_refuted. Qed.
-Theorem C10_cc_bd_bu_selfloop_refuted :
-  exists n A i, binary n A /\ symmetric n A /\ (i < n)%nat /\ ~ oeq (cc_bd_o n A i) (Some (cc_bu n A i)).
-Proof. exact cc_bd_bu_selfloop_refuted. Qed.
+     oeq (cc_wu_o cbrt n A i) (Some (cc_bu n A i))) /\
+  (forall n A i, binary n A -> symmetric n A -> (i < n)%nat -> oeq (cc_bd_o n A i) (Some (cc_bu n A i))).
+Proof. exact cc_o_pairs. Qed.
 
 (* ---- efficiency.py, local variants: `if numer != 0: ... E[u] = numer / denom` never divides by zero ----
    (any input matrix, any weights, any diagonal, any distance matrix inside 1/D): a nonzero numer forces denom >= 2,
@@ -262,12 +240,12 @@ Theorem C10_binarize_first_suffices :
      forall W, R ((fun P => g (binarize P)) (binarize W)) ((fun P => g (binarize P)) W)).
 Proof. exact (conj Proofs.ReduceBinFirst.binarize_first_suffices_Z Proofs.ReduceBinFirst.binarize_first_suffices_Q). Qed.
 
-(* non-vacuity, self-connections: on [[1,1],[1,0]] the four transitivities agree (2), node 0 gets 3/2 from all four
-   clustering routines, node 1 gets inf from wu / bd / wd and 0 from bu *)
+(* non-vacuity, self-connections: on [[1,1],[1,0]] the four transitivities agree (2), node 0 gets 3/2 and node 1 gets 0
+   from all four clustering routines (node 1: inf from wu / bd / wd before 366dab6) *)
 Example C10_selfloop_nonvacuous :
   binary 2 loop_pendant /\ symmetric 2 loop_pendant /\ ~ nodiag 2 loop_pendant /\
-  map (cc_wu_o cbrt_exact 2 loop_pendant) [0; 1]%nat = [Some (3 # 2); None]%list /\
-  map (fun i => qopt (cc_bd_o 2 loop_pendant i)) [0; 1]%nat = [Some (3 # 2); None]%list /\
+  map (fun i => qopt (cc_wu_o cbrt_exact 2 loop_pendant i)) [0; 1]%nat = [Some (3 # 2); Some 0]%list /\
+  map (fun i => qopt (cc_bd_o 2 loop_pendant i)) [0; 1]%nat = [Some (3 # 2); Some 0]%list /\
   map (fun i => Qred (cc_bu 2 loop_pendant i)) [0; 1]%nat = [3 # 2; 0]%list /\
   qopt (trans_wu cbrt_exact 2 loop_pendant) = Some (2 # 1) /\ qopt (trans_bu 2 loop_pendant) = Some (2 # 1) /\
   qopt (trans_bd 2 loop_pendant) = Some (2 # 1) /\ qopt (trans_wd cbrt_exact 2 loop_pendant) = Some (2 # 1).
@@ -383,7 +361,5 @@ Print Assumptions C10_betweenness_wei_bin_eq_bin.
 Print Assumptions C10_edge_betweenness_wei_bin_eq_bin.
 Print Assumptions C10_cc_visible_quotient.
 Print Assumptions C10_cc_any_diagonal.
-Print Assumptions C10_cc_wu_bu_selfloop_refuted.
-Print Assumptions C10_cc_bd_bu_selfloop_refuted.
 Print Assumptions C10_eloc_no_division_by_zero.
 Print Assumptions C10_binarize_first_suffices.
